@@ -264,3 +264,55 @@ func H_Bytes_ApplyDoc() {
 	}
 	vx.Reach("bytes/applydoc/wellformed")
 }
+
+
+// H_Bytes_InString: k unconstrained bytes INSIDE a string literal (member value, member name, pointer, operation
+// value) of otherwise well-formed arguments, handed to every entry point: never a panic. Reaches the string
+// decoder with malformed UTF-8, stray quotes and escapes well beyond the fully symbolic length bound.
+func H_Bytes_InString() {
+	k := vx.Param("k")
+	x := vx.Bytes("x", k)
+	if vx.ParamOr("hi", 0) == 1 {
+		// only non-ASCII bytes: every well-formed and malformed UTF-8 sequence of k bytes
+		for _, b := range x {
+			vx.Assume(b >= 0x80)
+		}
+	}
+	wrap := func(pre, post string) []byte { return append(append([]byte(pre), x...), post...) }
+	var doc, patch []byte
+	where := vx.Choose("where", 4)
+	switch where {
+	case 0:
+		doc, patch = wrap(`{"a":"`, `","b":1}`), []byte(`[{"op":"copy","from":"/a","path":"/c"},{"op":"test","path":"/b","value":1}]`)
+	case 1:
+		doc, patch = wrap(`{"`, `":1,"b":[2]}`), []byte(`[{"op":"add","path":"/b/-","value":3}]`)
+	case 2:
+		doc, patch = []byte(`{"a":1}`), wrap(`[{"op":"remove","path":"/`, `"}]`)
+	case 3:
+		doc, patch = []byte(`{"a":1}`), wrap(`[{"op":"add","path":"/b","value":{"k":"`, `"}}]`)
+	}
+	vx.Note("doc", doc)
+	vx.Note("patch", patch)
+	panicked := vx.CatchPanic(func() {
+		if p, err := jsonpatch.DecodePatch(patch); err == nil {
+			for _, op := range p {
+				op.Kind()
+				op.Path()
+				op.From()
+				op.ValueInterface()
+			}
+			p.Apply(doc)
+		}
+		jsonpatch.Equal(doc, doc)
+		jsonpatch.MergePatch(doc, doc)
+		jsonpatch.MergeMergePatches(doc, doc)
+		jsonpatch.CreateMergePatch(doc, []byte(`{"a":2}`))
+		jsonpatch.CreateMergePatch([]byte(`{"a":2}`), doc)
+	})
+	vx.Assert(!panicked, "C04/bytes-inside-string-no-panic")
+	if panicked {
+		vx.Note("panic", []byte(vx.PanicMsg()))
+		vx.Reach("bytes/instring/panicked")
+	}
+	vx.Reach("bytes/instring/end")
+}
